@@ -58,6 +58,7 @@ fn main() {
                 }
                 i += 1;
             }
+            std::env::set_var("VERIF_TIER", tier.name());
             std::process::exit(engine::run_check(&*c, tier));
         }
     }
